@@ -17,7 +17,7 @@
 (*          ok = FALSE is the panic of the real code                       *)
 (*   parsed TRUE while the state is the one ParseText installed, touched   *)
 (*          by observers only                                              *)
-(*   lastq  with TrackQueries: the observer called last if it left gl and   *)
+(*   lastq  with TrackQueries: the observer called last if it left gl and  *)
 (*          fn alone ("" after any other call).  A pure query is a         *)
 (*          self-loop of the object graph, so without this variable TLC    *)
 (*          would generate it only as the *last* call of a history; with   *)
@@ -76,11 +76,21 @@
 (* (ParseText(<<unnamed func, unnamed global>>)) and the C14 one (print,   *)
 (* insert before an unnamed value, print); with FALSE all hold.            *)
 (*                                                                         *)
+(* BOUNDS  the structure bounds (MaxPerGroup .. MaxInsts) make the object  *)
+(* graph finite; MaxCalls = 0 explores it without bounding the history     *)
+(* (closed model, any number of workers).  With MaxCalls > 0 the history   *)
+(* length is bounded while VIEW hides hist: run with -workers 1 (strict    *)
+(* breadth-first search, every state is first reached by a shortest        *)
+(* history) -- the emitting runs need one worker anyway.                   *)
+(*                                                                         *)
 (* BINDING  IRStateEmit.cfg: the ACTION_CONSTRAINT Emit writes one NDJSON  *)
-(* line per explored transition: the history (prefix + next call) and the  *)
-(* text the property requires.  harness/props/irhist replays each history  *)
-(* into the real ir API twice, with and without the observer calls (C14),  *)
-(* and compares the numbering with `want` (C08).                           *)
+(* line per explored transition: the history (representative prefix of the *)
+(* source state + next call) and the text the property requires of the     *)
+(* final print.  harness/props/irhist replays each history into the real   *)
+(* ir API twice, with and without the observer calls (C14, props/c14), and *)
+(* the histories without observers are compared with `want` (C08,          *)
+(* props/c08).  IRStateAsImpl.cfg is the model with ValidateOnPrint = TRUE *)
+(* on a small structure, run with -continue to collect the violations.     *)
 (***************************************************************************)
 EXTENDS Numbering, TLC, Json, IOUtils
 
